@@ -23,6 +23,14 @@ pub fn property() -> Property {
                 run: |cfg| run_part(cfg, session_strategy(), |r| build_session(r), check_session),
                 replay: |v| replay_case::<SessionCase, _>(v, check_session),
             },
+            Part {
+                name: "self_play",
+                quick: 160,
+                thorough: 6_000,
+                single_shard: false, supplementary: false,
+                run: |cfg| run_part(cfg, (gen::raw_playout(16), proptest::collection::vec((0..6u8, any::<u16>(), any::<bool>()), 2..9), any::<bool>()), |(r, plan, fen_root)| self_play_case(r, plan, *fen_root), check_self_play),
+                replay: |v| replay_case::<SelfPlayCase, _>(v, check_self_play),
+            },
             Part { name: "known_k1", quick: 1, thorough: 1, single_shard: true, supplementary: true, run: probe_k1, replay: |_| Ok(()) },
         ],
     }
@@ -556,4 +564,90 @@ pub fn sibling_history(fen: &str, moves: &[String]) -> Option<Vec<String>> {
 /// index of the root in the engine's repetition history
 pub fn root_ply(root: &Pos) -> u64 {
     2 * (root.full.saturating_sub(1)) + if root.turn == crate::refmodel::Color::Black { 1 } else { 0 }
+}
+
+// ------------------------------------------------------------------------------------------------
+// the normal flow of a game: the GUI appends the engine's own move and the opponent's reply
+// (often the announced ponder move) to the move list and asks again, on ONE engine instance
+
+#[derive(Debug, Clone, Serialize, Deserialize)]
+pub struct SelfPlayCase {
+    pub fen: String,
+    pub history: Vec<String>,
+    /// per turn: limit kind, reply choice, "the opponent plays the announced ponder move"
+    pub plan: Vec<(u8, u16, bool)>,
+}
+
+fn self_play_case(r: &gen::RawPlayout, plan: &[(u8, u16, bool)], fen_root: bool) -> SelfPlayCase {
+    let mut h = r.clone();
+    if !fen_root {
+        h.seed = 0;
+        h.flip = false;
+    }
+    let g = gen::play(&h, if fen_root { ClockDomain::Engine } else { ClockDomain::Keep });
+    let mut start = g.start.clone();
+    start.half = start.half.min(60);
+    SelfPlayCase { fen: start.fen(), history: g.moves.iter().map(Mv::uci).collect(), plan: plan.to_vec() }
+}
+
+pub fn check_self_play(c: &SelfPlayCase, ctx: &mut Ctx) -> Result<(), String> {
+    let mut s = Session::new();
+    let mut hist = c.history.clone();
+    let mut trace: Vec<String> = Vec::new();
+    let mut followed_ponder = 0;
+    for (turn, &(kind, choice, follow)) in c.plan.iter().enumerate() {
+        let root = root_of(&c.fen, &hist)?;
+        if root.legal_moves().is_empty() || root.half >= 90 {
+            break;
+        }
+        let g = match kind {
+            0 => GoSpec::depth(1),
+            1 | 2 => GoSpec::depth(2),
+            3 => GoSpec::depth(3),
+            4 => GoSpec { movetime: Some((choice % 30) as u64), ..GoSpec::default() },
+            _ => GoSpec { wtime: Some(2000), btime: Some(2000), winc: Some((choice % 40) as u64), binc: Some((choice % 40) as u64), ..GoSpec::default() },
+        };
+        s.position(&c.fen, &hist)?;
+        trace.push(format!("position fen {} moves {}", c.fen, hist.join(" ")));
+        trace.push(g.to_line());
+        let out = match s.search(&g) {
+            Wait::Done(o) => o,
+            Wait::ThreadDied(_, d) if crate::engsess::is_k1_depth_form(root_ply(&root), d) => {
+                ctx.known.insert(crate::engsess::K1_DEPTH_FORM.to_string());
+                return Ok(());
+            }
+            Wait::ThreadDied(why, _) => return Err(format!("turn {}: no bestmove for `{}` at root {}: {why}; game so far: {trace:?}", turn + 1, g.to_line(), root.fen())),
+            Wait::Timeout => return Err(format!("{HARNESS_PREFIX} watchdog in self play at {}", root.fen())),
+        };
+        judge_answer(&root, hist.len(), &g, out.best_uci(), ctx).map_err(|e| format!("turn {}: {e}; game so far: {trace:?}", turn + 1))?;
+        ctx.evals(1);
+        let best = out.best_uci().ok_or_else(|| "HARNESS: judged answer without move".to_string())?;
+        hist.push(best.clone());
+        let after = root_of(&c.fen, &hist)?;
+        let replies = after.legal_moves();
+        if replies.is_empty() {
+            break;
+        }
+        // the opponent's reply: the ponder move the engine announced (if it is legal), or some other move
+        let ponder = out.ponder.as_ref().map(|m| m.to_string()).filter(|m| replies.iter().any(|r| r.uci() == *m));
+        let reply = match (follow, ponder) {
+            (true, Some(p)) => {
+                followed_ponder += 1;
+                p
+            }
+            _ => replies[gen::pick(choice as u32, 16, replies.len())].uci(),
+        };
+        hist.push(reply);
+    }
+    if s.thread_finished() {
+        return Err(format!("search thread is no longer alive after the game {trace:?}"));
+    }
+    s.quit().map_err(|e| format!("{e}; game: {trace:?}"))?;
+    ctx.class("games");
+    if followed_ponder > 0 {
+        ctx.class("opponent_followed_the_ponder_move");
+        ctx.nontrivial((c.fen.clone(), c.history.clone(), c.plan.clone()));
+    }
+    ctx.sample(|| serde_json::json!({"fen": c.fen, "initial_history": c.history, "turns": c.plan.len(), "final_history": hist}));
+    Ok(())
 }
